@@ -84,11 +84,39 @@ def gen_token(rng):
     return bytes(rng.choice(SPECIAL) if rng.random() < 0.5 else rng.choice(GARBAGE_BYTES) for _ in range(n))
 
 
+def _numbers(v, acc):
+    if isinstance(v, bool):
+        return
+    if isinstance(v, (int, float)):
+        acc.append(v)
+    elif isinstance(v, list):
+        for x in v:
+            _numbers(x, acc)
+    elif isinstance(v, dict):
+        for x in v.values():
+            _numbers(x, acc)
+
+
+def unique_is_undetermined(values):
+    """Beyond the interoperable range (C10's quantifier excludes it) jawk's `=` calls an integer and a double equal when they
+    share a double, while --unique looks rows up by a hash of their own representation: whether such a pair counts as a
+    duplicate differs from run to run of the SAME input (observed: 18446744073709551614 and 18446744073709552E3 - 2 of 300
+    runs print one row).  Two runs can only be compared where the run itself is a function of its input."""
+    acc = []
+    for v in values:
+        _numbers(v, acc)
+    big = [x for x in acc if abs(x) >= 2 ** 53]
+    # (any spelling of such a number may be read as an integer or as a double: two of them on one double are enough)
+    return len(set(float(x) for x in big)) < len(big)
+
+
 def gen_unit(rng):
     nvalues = rng.choice((0, 1, 2, 3, 5, 8, 13))
     vals = []
+    pyvals = []
     for _ in range(nvalues):
         v = jm.gen_value(rng, 0, 3, NO_ASTRAL)
+        pyvals.append(v)
         t, e = jm.spell(v, rng, None, 0.2)
         vals.append(t.encode("utf-8") if rng.random() > 0.15 else rng.choice(SYNTAX_STRINGS))
     gaps = [[] for _ in range(nvalues + 1)]
@@ -101,7 +129,10 @@ def gen_unit(rng):
         gaps[g] = [bytes([rng.choice(SPECIAL)]) * 60000] if rng.random() < 0.5 else [bytes([rng.choice(SPECIAL)]) * 3] * 15000
     if rng.random() < 0.2:
         gaps[nvalues] = gaps[nvalues] + [rng.choice(TRUNCATED)]
-    return {"values": vals, "gaps": gaps, "pipeline": rng.choice(list(PIPELINES)),
+    pipeline = rng.choice(list(PIPELINES))
+    if pipeline == "unique" and unique_is_undetermined(pyvals):
+        pipeline = "identity"
+    return {"values": vals, "gaps": gaps, "pipeline": pipeline,
             "wsseed": rng.getrandbits(32)}
 
 
@@ -150,7 +181,81 @@ def split_errors(stdout):
     return errs, rest
 
 
+# arrays and objects that go wrong inside (every bracket is closed again, so wherever a reader picks the stream up after the
+# error, it is through with the wreck before the line ends)
+WRECKS = [b"[1, oops]", b"[1 2]", b'{"a" 1}', b"[[[3,]]]", b'{"a":[1,]}', b'{"k":{"k":{"k":}}}', b"[{]}", b'[[["x" "y"]]]', b'{"a":1,}',
+          b"[,]", b'{1:2}', b"[[[[[[[[!]]]]]]]]", b'{"a":{"b":[1,{"c":?}]}}']
+
+
+def gen_wreck_unit(rng):
+    """Hundreds of malformed arrays/objects, then ordinary values: what a reader went through before does not change what it
+    makes of the values that follow (rows of X.Y = rows of X, then rows of Y)."""
+    n = rng.choice((1, 5, 40, 130, 130, 300, 700))
+    kinds = rng.sample(WRECKS, rng.choice((1, 1, 2, 4)))
+    wrecks = [rng.choice(kinds) for _ in range(n)]
+    vals = []
+    for _ in range(rng.choice((1, 2, 5, 9))):
+        v = jm.gen_value(rng, 0, 3, NO_ASTRAL)
+        if rng.random() < 0.6 and not isinstance(v, (list, dict)):
+            v = rng.choice(([v], {"m": v}, [[v], {"k": [v, 1]}], {"a": {"b": {"c": v}}}))
+        vals.append(jm.spell(v, rng, None, 0.2)[0].encode("utf-8"))
+    return {"kind": "wreck", "wrecks": wrecks, "values": vals, "pipeline": rng.choice(("identity", "select", "only-oa", "csv", "select-index-free")),
+            "sep": rng.choice((b"\n", b"\n", b" \n", b"\r\n"))}
+
+
+def run_wreck_unit(ctx, unit):
+    st = ctx.stats
+    pargs = {"select-index-free": ["--select", "(size .)=n", "--select", ".=v"]}.get(unit["pipeline"]) or PIPELINES[unit["pipeline"]][0]
+    sep = unit["sep"]
+    X = sep.join(unit["wrecks"]) + sep
+    Y = sep.join(unit["values"]) + sep
+    for pol in ("ignore", "stderr"):
+        cases = [core.Case(["--on-error", pol] + pargs, d) for d in (X, Y, X + Y)]
+        obs = ctx.drv.run_many(cases)
+        for i, (c, o) in enumerate(zip(cases, obs)):
+            if o.result in ("timeout", "abort"):
+                o, ok = ctx.drv.confirm(c, o)
+                if not ok:
+                    st.inconc("watchdog_not_reproduced")
+                    return
+                obs[i] = o
+            if o.result != "ok":
+                st.violation("wreck-run-failed:" + pol, "malformed arrays/objects under --on-error=%s: the run ended with %s %s" % (pol, o.result, (o.errtext or o.panicinfo)[:200]),
+                             unit, {"args": c.args, "input": c.stdin[:600], "obs": o.brief()})
+                return
+        st.count("wreck_comparisons")
+        ox, oy, oxy = obs
+        hdr = b""
+        if unit["pipeline"] == "csv":
+            # one header line per run
+            hdr = oy.stdout.split(b"\n", 1)[0] + b"\n"
+            if not (ox.stdout.startswith(hdr) and oy.stdout.startswith(hdr) and oxy.stdout.startswith(hdr)):
+                st.inconc("csv_header_not_first_line")
+                return
+        want = ox.stdout + oy.stdout[len(hdr):]
+        if oxy.stdout != want:
+            st.violation("wreck-changes-later-rows:" + pol + ":" + unit["pipeline"],
+                         "%d malformed arrays/objects, then %d values (--on-error=%s, pipeline %s): the rows of the whole stream are not the rows of "
+                         "the malformed part followed by the rows of the values (%d bytes, expected %d; the values alone give %r...)" % (
+                             len(unit["wrecks"]), len(unit["values"]), pol, unit["pipeline"], len(oxy.stdout), len(want), oy.stdout[:120]),
+                         unit, {"args": cases[2].args, "input_head": (X + Y)[:300], "got_tail": oxy.stdout[-400:], "want_tail": want[-400:]})
+            return
+        if pol == "stderr" and unit["wrecks"] and b"error:" not in oxy.stderr:
+            st.violation("wreck-not-reported", "malformed arrays/objects under --on-error=stderr: no error: line on stderr", unit,
+                         {"args": cases[2].args, "input_head": (X + Y)[:300]})
+            return
+        if pol == "ignore" and oxy.stderr:
+            st.violation("wreck-ignore-writes-stderr", "malformed arrays/objects under --on-error=ignore: stderr is not empty: %r" % oxy.stderr[:200], unit,
+                         {"args": cases[2].args, "input_head": (X + Y)[:300]})
+            return
+    st.count("conclusive")
+    st.count("wreck_units")
+    st.see("nontrivial", ("wreck", min(len(unit["wrecks"]), 130), unit["pipeline"], unit["wrecks"][0][:4]))
+
+
 def run_unit(ctx, unit):
+    if unit.get("kind") == "wreck":
+        return run_wreck_unit(ctx, unit)
     st = ctx.stats
     pargs, streaming = PIPELINES[unit["pipeline"]]
     noisy, first = build(unit, True)
@@ -315,10 +420,10 @@ def worker(ctx):
         if ctx.expired():
             st.count("stopped_by_deadline")
             break
-        unit = gen_unit(ctx.rng)
+        unit = gen_unit(ctx.rng) if ctx.rng.random() > 0.04 else gen_wreck_unit(ctx.rng)
         run_unit(ctx, unit)
         st.count("units")
-        if i < 2 and ctx.idx == 0:
+        if i < 2 and ctx.idx == 0 and unit.get("kind") != "wreck":
             st.sample({"pipeline": unit["pipeline"], "noisy_input": build(unit)[0][:300].decode("latin-1")})
 
 
